@@ -28,20 +28,24 @@ FirstFree == Alpha + 2                  \* table length right after a clear-tabl
 TableMax  == 2^MaxBits                  \* a table never holds more entries than MaxBits-wide codes can name
 
 \* -------------------------------------------------------------------- reference (the standard)
-\* Code width the decoder must use while its table holds tlen entries ("early change": the width
-\* grows one code before the table index would need it): 9 bits below 511 entries, 10 below 1023,
-\* 11 below 2047, 12 from then on.
-RECURSIVE WidthFrom(_, _)
-WidthFrom(tlen, w) == IF w >= MaxBits \/ tlen < 2^w - 1 THEN w ELSE WidthFrom(tlen, w + 1)
-WidthFor(tlen) == WidthFrom(tlen, MinBits)
+\* Code width the decoder must use while its table holds tlen entries.  The next code may be as large
+\* as tlen (the phrase about to be created), so tlen < 2^w is needed; with /EarlyChange 1 (the default,
+\* ISO 32000-1 table 8) the width grows one code earlier: 9 bits below 511 entries, 10 below 1023,
+\* 11 below 2047, 12 from then on.  With /EarlyChange 0 the switches are at 512, 1024, 2048.
+RECURSIVE WidthFrom(_, _, _)
+WidthFrom(tlen, w, ec) == IF w >= MaxBits \/ tlen < 2^w - ec THEN w ELSE WidthFrom(tlen, w + 1, ec)
+WidthForEC(tlen, ec) == WidthFrom(tlen, MinBits, ec)
+WidthFor(tlen) == WidthForEC(tlen, 1)
 
 \* -------------------------------------------------------------------- as coded (LZWDecoder.feed)
 \* `if table_length == 511: nbits = 10 elif == 1023: 11 elif == 2047: 12`
-RECURSIVE BumpFrom(_, _, _)
-BumpFrom(tlen, nbits, w) ==
+\* (ec = 1 is what the code has; ec = 0 is the same chain with 512 / 1024 / 2048)
+RECURSIVE BumpFrom(_, _, _, _)
+BumpFrom(tlen, nbits, w, ec) ==
   IF w >= MaxBits THEN nbits
-  ELSE IF tlen = 2^w - 1 THEN w + 1 ELSE BumpFrom(tlen, nbits, w + 1)
-Bump(tlen, nbits) == BumpFrom(tlen, nbits, MinBits)
+  ELSE IF tlen = 2^w - ec THEN w + 1 ELSE BumpFrom(tlen, nbits, w + 1, ec)
+BumpEC(tlen, nbits, ec) == BumpFrom(tlen, nbits, MinBits, ec)
+Bump(tlen, nbits) == BumpEC(tlen, nbits, 1)
 
 \* Kind of step LZWDecoder.feed takes on `code`, given the table length tlen (0 = never cleared)
 \* and whether prevbuf is empty.
